@@ -126,5 +126,5 @@ T17Init == /\ tid \in 1..Len(Traces) /\ stage = "tables" /\ bad = {} /\ done17 =
            /\ cls = "-" /\ hist = <<>> /\ order = <<>>
 T17Next == /\ ~done17 /\ done17' = TRUE /\ bad' = TabClauses(T) /\ stage' = "done"
            /\ UNCHANGED <<tid, cls, hist, order>>
-Report17 == done17 => PrintT(ToJson([v |-> "V", tid |-> tid, bad |-> bad]))
+Report17 == done17 => PrintT(ToJson(<<"V", tid, bad>>))
 =============================================================================
